@@ -513,6 +513,48 @@ pub fn run(ctx: &Ctx) -> Rep {
         rep.merge(st.rep);
     }
 
+    // ---- (4b'') repeated and nested tokens ---------------------------------------------------------------
+    // Hand texts in which tokens repeat or contain one another ("AS AS KS ...", "KSx KS ...", "AS S ..."): the
+    // slots must still be filled in token order. Every position pair (i, j) of every size gets the same token,
+    // a token that is a prefix / suffix / infix of the other, and a one-character token.
+    {
+        let mut st = St { rep: Rep::new(), x: mk(), cur: [0; 8], cur_len: 0, cur_what: "" };
+        let mut rng = Rng::new(seed, 0xC12_4D00);
+        let card_tok = |i: u8| format!("{}{}", model::RANK_CHARS[model::rank_of(i) as usize], ['S', 'H', 'D', 'C'][model::suit_of(i) as usize]);
+        let mut n_texts = 0u64;
+        for n in 2..=7usize {
+            for i in 0..n {
+                for j in 0..n {
+                    if i == j {
+                        continue;
+                    }
+                    for variant in 0..5 {
+                        let mut deck: Vec<u8> = (0..52).collect();
+                        rng.shuffle(&mut deck);
+                        let mut toks: Vec<String> = deck[..n].iter().map(|&c| card_tok(c)).collect();
+                        let base = toks[j].clone();
+                        toks[i] = match variant {
+                            0 => base.clone(),                        // identical
+                            1 => format!("{}x", base),                // j is a prefix of i
+                            2 => format!("x{}", base),                // j is a suffix of i
+                            3 => base[1..].to_string(),               // i is the one-character tail of j
+                            _ => format!("{}{}", base, base),         // doubled
+                        };
+                        let s = toks.join(" ");
+                        check_text(&mut st, &s);
+                        n_texts += 1;
+                    }
+                }
+            }
+            if ctx.smoke() {
+                break;
+            }
+        }
+        st.rep.add("texts_with_repeated_or_nested_tokens", n_texts);
+        st.rep.distinct += n_texts;
+        rep.merge(st.rep);
+    }
+
     // ---- (4c) token sequences: a token right after a look-alike ------------------------------------------
     // Parsing a token must not depend on what was parsed before. For every valid two-symbol token t and every
     // "alias" of it (a character whose code point agrees with the symbol in its low 8 or 16 bits, from other
